@@ -184,10 +184,46 @@ pub fn run(ctx: &Ctx, c02: bool) -> i32 {
     }
     part
   });
+  // direct positions: exponent sweep around the critical parallels / meridians, and a sweep of
+  // EVERY number of longitude turns of the property's domain ("about [-8 pi, 8 pi]": -4..=4 turns,
+  // and the half turns in between) on generic positions.  (The code reduces the longitude with an
+  // 8-bit quarter counter, i.e. up to 31 turns; more turns are outside the stated domain.)
+  let mut direct: Vec<(f64, f64, &str)> = exponent_sweep_positions().into_iter().map(|(l, b)| (l, b, "exponent-sweep")).collect();
+  for &(lon0, lat0) in generic_points().iter().chain(fibonacci_points(48).iter()) {
+    for t in -8..=8 {
+      let lon = lon0 + t as f64 * PI;
+      if lon.abs() <= 8.0 * PI + 1.0 {
+        direct.push((lon, lat0, "turns-sweep"));
+      }
+    }
+  }
+  let dchunk = 256usize;
+  let dpart = par_jobs((direct.len() + dchunk - 1) / dchunk, |job| {
+    let mut part = Part::new();
+    for &(lon, lat, stratum) in &direct[job * dchunk..((job + 1) * dchunk).min(direct.len())] {
+      if c02 {
+        part.stratum(stratum, 1, 30);
+        if let Some(v) = check_c02(lon, lat, &mut part) {
+          part.viol(v);
+        }
+      } else {
+        let xy = ref_proj(lon, lat);
+        part.stratum(stratum, 30, 30);
+        for depth in 0..30u8 {
+          if let Some(v) = check_c01(depth, lon, lat, xy, &mut part) {
+            part.viol(v);
+          }
+        }
+      }
+    }
+    part
+  });
+  total.merge(dpart);
   if !c02 {
     check_out_of_domain(&mut total);
   }
   let bounds = json!({
+    "exponent_sweep": "critical latitudes / meridians +- 10^-k, 3.3 10^-k (k = 1..17) and 2^-k (k = 4..60 by 4)", "turns_sweep": "every number of half turns -8..=8 (|lon| <= 8 pi + 1) on 58 generic positions",
     "plane_lattice_bits": bd.b, "lattice_nodes": n_lattice, "deep_border_nodes": n_nodes - n_lattice,
     "ulp_nudges": format!("(2*{}+1)^2 lattice, (2*{}+1)^2 deep-border", bd.nudge_k, bd.deep_nudge_k),
     "turns_lattice": bd.turns, "turns_deep_border": bd.deep_turns, "depths": "0..=29 (all)",
